@@ -635,7 +635,7 @@ func generate(cfg *hx.Config, rng *hx.RNG) []genCase {
 	}
 	mult := 1
 	if cfg.Thorough() {
-		mult = 12
+		mult = 25
 	}
 
 	// 1. every name class x every spelling, twice (second answer must be the cached object)
